@@ -52,6 +52,11 @@ CHECKS['C06'] = dict(engine='hypothesis/grdrv + gdlmodel', technique='model-base
          'compiled to real font tables and the engine output is compared exactly with an independent reference interpreter. Exploration level inside the stated regime.',
     note='Trusted: py/gdlmodel.py (reference) and py/fontsynth.py (compiler) -- separate code paths from the same rule value; regime restrictions listed in DESIGN 5/C06.', ref='5/C06')
 
+CHECKS['C13'] = dict(engine='enum_cmap + hypothesis/grdrv', technique='exhaustive per-font enumeration of all code points, differential (direct vs cached) and against an independent OpenType reference; fonts generated by property-based testing',
+    text='For every shipped font and ~2400 generated well-formed cmaps per quick run, all 0x110000 code points are looked up through both engine paths and a 40-line reference; '
+         'exhaustive per font (two fonts with ~1900 format-12 groups are strided above the BMP in the quick tier), exploration over fonts.',
+    note='Trusted: the reference lookup (harness/cmap_sweep.h). Generated subtables are well-formed; malformed cmaps are C01 territory.', ref='5/C13')
+
 NOT_YET = {}
 
 def main():
